@@ -434,7 +434,7 @@ func cmdArena(args []string) {
 	})
 	rec := NewRec(d, 1, tr, *seed)
 	arenas := 0
-	rec.PostCall = func() {
+	flush := func() {
 		for _, a := range cur {
 			tr.start("Arena")
 			tr.fBytes("before", a.before)
@@ -453,6 +453,15 @@ func cmdArena(args []string) {
 		}
 		cur = cur[:0]
 	}
+	rec.PostCall = flush
+	// a sequence method has returned: the caller may reuse its buffers BEFORE it ranges over the sequence,
+	// and between two passes over it
+	rec.AfterCreate = func() {
+		if r.Intn(2) == 0 {
+			flush()
+		}
+	}
+	rec.BetweenPasses = flush
 	rec.NoBatch = true
 	uni := d.Universe()
 	var ins []int
